@@ -970,11 +970,13 @@ def g6(ctx, R):
                     and "extension_values" in norm(c.func.value):
                 table_side = norm(c.func.value)
                 tok = c.args[0]
-            if tok is None or not any(k in table_side for k in ("['values']", "['extension_values']", "['valid_for']", '["values"]')):
+            if tok is None or not any(k in table_side for k in ("values", "valid_for")):
+                continue
+            if "arguments" in table_side or "loaded_extensions" in table_side:
                 continue
             if isinstance(tok, ast.Constant):
                 continue  # `"values" in arg`
-            if "extra_arg" in table_side and "['values']" in table_side:
+            if "extra_arg" in table_side and "values" in table_side and "valid_for" not in table_side:
                 continue  # parameter values ("gt", "i;octet") are not tags
             # parameter-valued operand: guarded in the same expression by `atype in <...>['extra_arg']['type']`
             if any("['extra_arg']['type']" in norm(e) and pol for e, pol in expr_guards(c)):
@@ -987,7 +989,7 @@ def g6(ctx, R):
             else:
                 ctx.violation("G6", f, "case-sensitive-tag:%s" % norm(c)[:60], "the tag token is compared case-sensitively: %s" % norm(c)[:70],
                               node=c, witness='`header :COUNT "gt" "a" "1"` is rejected while `:count` is accepted')
-    ctx.need("G6", "tag membership tests", n, 3)
+    ctx.need("G6", "tag membership tests", n, 2)
 
 
 # =============================================================================== transitions (added after the first build)
